@@ -13,6 +13,7 @@ import (
 	"strings"
 	"time"
 
+	c10alt "verifharness/c10alt/c10types"
 	"verifharness/c10types"
 	"verifharness/internal/core"
 )
@@ -80,6 +81,15 @@ var registry = map[string]named{
 		fld("Name", nm("c10types.Name")), fld("Next", ptrT(nm("c10types.Inner"))), fld("Kids", sliceT(nm("c10types.Inner"))),
 		fld("Attr", mapT(nm("c10types.Name"), nm("c10types.Inner"))), fld("P", ptrT(sc("string"))),
 		fld("C", ptrT(nm("c10types.Color"))), fld("In", nm("c10types.Inner")))},
+	"c10types.Box": {RT: reflect.TypeOf(c10types.Box{}), Under: structT(
+		fld("P", nm("image.Point")), fld("D", nm("time.Duration")), fld("In", nm("c10types.Inner")), fld("N", sc("int")))},
+	"c10types.Wrap": {RT: reflect.TypeOf(c10types.Wrap{}), Under: structT(
+		fld("B", nm("c10types.Box")), fld("U", nm("url.Values")), fld("Q", ptrT(nm("image.Point"))))},
+	// a second package called c10types (not used by the C10 stream: its generated programs do not contain it)
+	"c10alt.Tag":  {RT: reflect.TypeOf(c10alt.Tag{}), Under: structT(fld("N", sc("int")), fld("S", sc("string")))},
+	"c10alt.Unit": {RT: reflect.TypeOf(c10alt.Unit(0)), Under: sc("int")},
+	"c10alt.Frame": {RT: reflect.TypeOf(c10alt.Frame{}), Under: structT(fld("R", nm("image.Rectangle")), fld("N", sc("int")))},
+	"image.Rectangle": {RT: reflect.TypeOf(image.Rectangle{}), Under: structT(fld("Min", nm("image.Point")), fld("Max", nm("image.Point")))},
 	// types from other packages
 	"time.Duration": {RT: reflect.TypeOf(time.Duration(0)), Under: sc("int64")},
 	"time.Month":    {RT: reflect.TypeOf(time.Month(0)), Under: sc("int")},
